@@ -756,33 +756,34 @@ def expPart (p : LState × Bytes) : LState × Bytes :=
     digitsUs p.1 p.2
   else p
 
+/-- integer, fraction and exponent parts of `readNumber` (lexer.go:989-1036). -/
+def decimalTail (s : LState) (p : LState × Bytes) : Tok × LState :=
+  let p := digitsUs p.1 p.2
+  let p := fracPart p
+  let p := expPart p
+  (tokAt s tNUMBER p.2.reverse, p.1)
+
+/-- the `if l.ch == '0'` block of `readNumber` (lexer.go:932-987), entered at the `0`. -/
+def zeroPrefix (s : LState) (p : LState × Bytes) : Tok × LState :=
+  let p := takeChar p
+  if p.1.ch = 120 ∨ p.1.ch = 88 then
+    let p := hexTail p
+    (tokAt s tNUMBER p.2.reverse, p.1)
+  else if p.1.ch = 98 ∨ p.1.ch = 66 then
+    let p := takeChar p
+    let p := scanWhile binDigitCond binDigitCond_ok p.1 p.2
+    (tokAt s tNUMBER p.2.reverse, p.1)
+  else if p.1.ch = 111 ∨ p.1.ch = 79 then
+    let p := takeChar p
+    let p := scanWhile octDigitCond octDigitCond_ok p.1 p.2
+    (tokAt s tNUMBER p.2.reverse, p.1)
+  else decimalTail s p
+
 /-- lexer.go:921-1037 `readNumber`. -/
 def readNumber (s : LState) : Tok × LState :=
   let p : LState × Bytes := (s, [])
   let p := if p.1.ch = 46 then takeChar p else p
-  if p.1.ch = 48 then
-    let p := takeChar p
-    if p.1.ch = 120 ∨ p.1.ch = 88 then
-      let p := hexTail p
-      (tokAt s tNUMBER p.2.reverse, p.1)
-    else if p.1.ch = 98 ∨ p.1.ch = 66 then
-      let p := takeChar p
-      let p := scanWhile binDigitCond binDigitCond_ok p.1 p.2
-      (tokAt s tNUMBER p.2.reverse, p.1)
-    else if p.1.ch = 111 ∨ p.1.ch = 79 then
-      let p := takeChar p
-      let p := scanWhile octDigitCond octDigitCond_ok p.1 p.2
-      (tokAt s tNUMBER p.2.reverse, p.1)
-    else
-      let p := digitsUs p.1 p.2
-      let p := fracPart p
-      let p := expPart p
-      (tokAt s tNUMBER p.2.reverse, p.1)
-  else
-    let p := digitsUs p.1 p.2
-    let p := fracPart p
-    let p := expPart p
-    (tokAt s tNUMBER p.2.reverse, p.1)
+  if p.1.ch = 48 then zeroPrefix s p else decimalTail s p
 
 /-- `for l.ch == '_' && IsDigit(peek) { l.readChar(); for IsDigit(l.ch) { write; readChar } }` (lexer.go:1093-1099). -/
 def usDigitGroups (s : LState) (acc : Bytes) : LState × Bytes :=
@@ -796,25 +797,31 @@ decreasing_by
   apply readChar_measure_lt_of_ch
   simp at h; omega
 
+/-- lexer.go:1138-1177: `val := sb.String()`; `0x…` and `0b…` after a lone `0`. -/
+def baseTail (p : LState × Bytes) : LState × Bytes :=
+  let isZero : Bool := p.2 == [48]                                       -- val == "0"
+  if isZero ∧ (p.1.ch = 120 ∨ p.1.ch = 88) then hexTail p
+  else if isZero ∧ (p.1.ch = 98 ∨ p.1.ch = 66) ∧ (peekChar p.1 = 48 ∨ peekChar p.1 = 49) then
+    let p := takeChar p
+    scanWhile binDigitCond binDigitCond_ok p.1 p.2
+  else p
+
+/-- lexer.go:1181-1192: `0o…` when `startCh == '0' && len(sb.String()) == 1`. -/
+def octTail (startCh : Nat) (p : LState × Bytes) : LState × Bytes :=
+  if startCh = 48 ∧ lenGe p.2 1 ∧ !lenGe p.2 2 then                    -- len(sb.String()) == 1
+    if p.1.ch = 111 ∨ p.1.ch = 79 then
+      let p := takeChar p
+      scanWhile octDigitCond octDigitCond_ok p.1 p.2
+    else p
+  else p
+
 /-- the part of `readNumberOrIdent` after the identifier checks (lexer.go:1090-1194). -/
 def numberTail (startCh : Nat) (s : LState) (p : LState × Bytes) : Tok × LState :=
   let p := usDigitGroups p.1 p.2
   let p := fracPart p
   let p := expPart p
-  let isZero : Bool := p.2 == [48]                                       -- val == "0"
-  let p :=
-    if isZero ∧ (p.1.ch = 120 ∨ p.1.ch = 88) then hexTail p
-    else if isZero ∧ (p.1.ch = 98 ∨ p.1.ch = 66) ∧ (peekChar p.1 = 48 ∨ peekChar p.1 = 49) then
-      let p := takeChar p
-      scanWhile binDigitCond binDigitCond_ok p.1 p.2
-    else p
-  let p :=
-    if startCh = 48 ∧ lenGe p.2 1 ∧ !lenGe p.2 2 then                  -- len(sb.String()) == 1
-      if p.1.ch = 111 ∨ p.1.ch = 79 then
-        let p := takeChar p
-        scanWhile octDigitCond octDigitCond_ok p.1 p.2
-      else p
-    else p
+  let p := baseTail p
+  let p := octTail startCh p
   (tokAt s tNUMBER p.2.reverse, p.1)
 
 /-- lexer.go:1042-1195 `readNumberOrIdent`. -/
@@ -929,25 +936,24 @@ def readDot (s : LState) : Tok × LState :=
 /-- the `switch l.ch` of `NextToken` (lexer.go:221-393); all case labels are distinct constants, so the
 order of the tests is immaterial. -/
 def nextTokenSwitch (s : LState) : Except PanicSite (Tok × LState) :=
-  let c := s.ch
-  match singleCharKind c with
-  | some k => .ok (tokAt s k (encodeRune c), readChar s)
+  match singleCharKind s.ch with
+  | some k => .ok (tokAt s k (encodeRune s.ch), readChar s)
   | none =>
     match readOperator s with
     | some r => .ok r
     | none =>
-      if c = 123 then .ok (readParameter s)
-      else if c = 46 then .ok (readDot s)
-      else if c = 36 then readDollar s
-      else if c = 39 then .ok (readString 39 s)
-      else if c = 0x2018 ∨ c = 0x2019 then .ok (readUnicodeString c s)
-      else if c = 34 then .ok (readQuotedIdentifier s)
-      else if c = 0x201C ∨ c = 0x201D then .ok (readUnicodeQuotedIdentifier c s)
-      else if c = 96 then .ok (readBacktickIdentifier s)
-      else if c = 64 then .ok (readAt s)
-      else if isDigit c then .ok (readNumberOrIdent s)
-      else if isIdentStart c then readIdentifier s
-      else .ok (tokAt s tILLEGAL (encodeRune c), readChar s)        -- Value: string(ch)
+      if s.ch = 123 then .ok (readParameter s)
+      else if s.ch = 46 then .ok (readDot s)
+      else if s.ch = 36 then readDollar s
+      else if s.ch = 39 then .ok (readString 39 s)
+      else if s.ch = 0x2018 ∨ s.ch = 0x2019 then .ok (readUnicodeString s.ch s)
+      else if s.ch = 34 then .ok (readQuotedIdentifier s)
+      else if s.ch = 0x201C ∨ s.ch = 0x201D then .ok (readUnicodeQuotedIdentifier s.ch s)
+      else if s.ch = 96 then .ok (readBacktickIdentifier s)
+      else if s.ch = 64 then .ok (readAt s)
+      else if isDigit s.ch then .ok (readNumberOrIdent s)
+      else if isIdentStart s.ch then readIdentifier s
+      else .ok (tokAt s tILLEGAL (encodeRune s.ch), readChar s)        -- Value: string(ch)
 
 /-- lexer.go:196-394 `NextToken`. -/
 def nextTokenE (s0 : LState) : Except PanicSite (Tok × LState) :=
